@@ -199,6 +199,19 @@ def run_program(ls, rng, fc, mask, nzcv):
             else:
                 body += rng.choice(SLOT_LD).to_bytes(2, 'little')
             kinds.append(k)
+    if rng.random() < 0.5:
+        # the block's own 16-bit slot instructions once more BEHIND the block: the identical halfword inside and outside an IT
+        # block on the same processor object (16-bit data-processing encodings set the flags only outside)
+        off = 0
+        tail = bytearray()
+        for k_ in kinds:
+            ln = 4 if k_.startswith(('a32', 'r32', 'ldrpc')) else 2
+            if k_ in ('a16', 'r16'):
+                tail += body[off:off + 2]
+            off += ln
+        if tail:
+            body += tail
+            ls.bump('programs_repeating_slot_words_behind_the_block')
     body += b'\x00\xbf' * 12                               # NOPs after the block
     M.poke(cpu, code + 2, bytes(body))
     # handlers at the vectors: return to the instruction after the one that trapped
